@@ -465,6 +465,7 @@ func (e *Engine) discharge(vcs []*VC, opts runOpts) {
 		}
 	}
 	ch := make(chan job)
+	failCount := map[*VC]int{}
 	var wg sync.WaitGroup
 	for w := 0; w < opts.workers; w++ {
 		wg.Add(1)
@@ -474,6 +475,13 @@ func (e *Engine) discharge(vcs []*VC, opts runOpts) {
 				q := j.vc.buildQuery(j.o)
 				j.o.Bytes = len(q)
 				to := opts.timeout
+				// fail fast: once a function has many undischarged obligations the rest get a short budget
+				e.mu.Lock()
+				nf := failCount[j.vc]
+				e.mu.Unlock()
+				if nf >= 8 && to > 2*time.Second {
+					to = 2 * time.Second
+				}
 				if j.o.Expect == "sat" {
 					if to > 5*time.Second {
 						to = 5 * time.Second
@@ -491,7 +499,12 @@ func (e *Engine) discharge(vcs []*VC, opts runOpts) {
 				}
 				r := solve(q, j.o.Name, to, opts.all && j.o.Expect != "sat", opts.tmpdir, j.o.Expect == "sat")
 				j.o.Answer, j.o.Solver, j.o.Ms, j.o.Output = r.Answer, r.Solver, r.Ms, r.Output
-				if j.o.Expect != "sat" && (r.Answer == "timeout" || r.Answer == "unknown") {
+				if j.o.Expect != "sat" && r.Answer != "unsat" {
+					e.mu.Lock()
+					failCount[j.vc]++
+					e.mu.Unlock()
+				}
+				if j.o.Expect != "sat" && (r.Answer == "timeout" || r.Answer == "unknown") && nf < 8 {
 					// case split: both halves must be discharged
 					sto := to
 					if sto > 6*time.Second {
